@@ -53,7 +53,7 @@ func aaLog(logger string, path string, profile string) error {
 	case "auditd":
 		file, err = logs.GetAuditLogs(path)
 	case "systemd":
-		file, err = logs.GetJournalctlLogs(path, since, !slices.Contains(logs.LogFiles, path))
+		file, err = logs.GetJournalctlLogs(path, since, path != "" && !slices.Contains(logs.LogFiles, path))
 	default:
 		err = fmt.Errorf("logger %s not supported", logger)
 	}
